@@ -2,6 +2,7 @@
   C17 — a retained session behaves like one growing program.
 -/
 import Nlmodel.Model.Session
+import Nlmodel.Proofs.Lemmas.SimCtlSession
 namespace Nl
 namespace C17
 
@@ -76,6 +77,51 @@ theorem C17_resolve_concat : (a : Block) → ∀ (b : Block) (st : RState),
         cases resolveSs b st2 with
         | error e => rfl
         | ok r => obtain ⟨rb, st3⟩ := r; rfl
+
+/-! ### a session refines the definitional semantics, line by line (control-flow fragment) -/
+
+/-- ONE LINE: for a session whose symbol table, machine globals and definitional state are linked by
+    `Sim.SInv` (true of the empty session, `Sim.sinv_start`, and re-established by every successful
+    line), a line of the control-flow fragment (global scalar variables, `stel`, assignment,
+    operators, `als`/`zolang` as statements and values, `stop`/`volgende`, nested blocks) answers
+    with the value the definitional semantics gives on the carried state — the names of earlier
+    lines resolved to the slots they got then, their values found in the retained globals — and an
+    error of the semantics is the session's error.  Instance of the stage-3 simulation started from
+    the retained machine (`Sim.ctl_line`) and of R1 on the retained symbol table (`Sim.rSs`). -/
+theorem C17_line_refines_semantics (cc : CharClass) (s : Session) (st : Spec.SState) (sc : List (Text × Nat)) (hs : Sim.SInv s st sc)
+    (src : Text) (ast : Block) (hp : parse cc src = .ok ast) (hsb : Sim.SB false ast)
+    (r : RBlock) (rs' : RState) (hres : resolveSs ast { s.rs with loopDepth := 0, funcDepth := 0 } = .ok (r, rs'))
+    (bc : Bytecode) (hc : compileR r = .ok bc) (F : Nat) :
+    match Spec.evalB F r { st with last := .null } with
+    | .val () st' => ∃ n sc' s', s'.rs = rs' ∧ Sim.SInv s' st' sc' ∧ ∀ k, s.line cc (n + k) src = (s', .value (st'.tree treeDepth [] st'.last) [])
+    | .err er _ => ∃ n, ∀ k, ∃ s' out, s.line cc (n + k) src = (s', .error er out)
+    | .brk _ => False
+    | .cont _ => False
+    | .ret _ _ => False
+    | _ => True :=
+  Sim.session_line cc s st sc hs src ast hp hsb r rs' hres bc hc F
+
+/-- A WHOLE SESSION of any length: whatever values the definitional session (`Sim.SpecRun`: each line
+    parsed, resolved on the carried symbol table, evaluated by the definitional semantics on the
+    carried state) gives, the real session — one retained compiler, one retained machine, a fresh
+    collector and fresh code per line — gives exactly those values, for every large enough budget -/
+theorem C17_session_refines_semantics (cc : CharClass) (F : Nat) (srcs : List Text) (ts : List Tree)
+    (h : Sim.SpecRun cc F {} {} srcs ts) :
+    ∃ n, ∀ k, Session.lines cc (n + k) {} srcs = ts.map (fun t => Obs.value t []) :=
+  Sim.session_lines cc F {} {} srcs ts h {} [] rfl Sim.sinv_start
+
+/-- non-vacuity: the definitional session of `stel a = 2` / `a = a * 3` / `zolang a < 9 { a = a + 1 }; a + 1`
+    (a loop over a variable of an earlier line) exists and has the values null, 6, 10 — so by
+    `C17_session_refines_semantics` the real session answers exactly that -/
+def exLine1 : Text := ['s','t','e','l',' ','a',' ','=',' ','2']
+def exLine2 : Text := ['a',' ','=',' ','a',' ','*',' ','3']
+def exLine3 : Text := ['z','o','l','a','n','g',' ','a',' ','<',' ','9',' ','{',' ','a',' ','=',' ','a',' ','+',' ','1',' ','}',';',' ','a',' ','+',' ','1']
+
+example : ∃ ts, Sim.SpecRun CharClass.ascii 60 {} {} [exLine1, exLine2, exLine3] ts ∧ ts = [.null, .int 6, .int 10] := by
+  refine ⟨_, .cons _ _ _ _ _ _ _ _ _ _ rfl ?_ rfl rfl rfl
+    (.cons _ _ _ _ _ _ _ _ _ _ rfl ?_ rfl rfl rfl
+      (.cons _ _ _ _ _ _ _ _ _ _ rfl ?_ rfl rfl rfl (.nil _ _))), rfl⟩
+  all_goals (repeat (first | constructor | rfl | decide))
 
 end C17
 end Nl
